@@ -251,6 +251,29 @@ def guarded (a : Access) : Bool :=
 def oneSection (tab : List Access) (a : Access) : Bool :=
   a.init || tab.all fun b => b.init || !(b.type == a.type && b.fn == a.fn) || b.sect == a.sect
 
+/-- Per function and guarding mutex: number of separate critical sections (own + those of called functions of the
+    tracked types, transitively; an unlocked access counts as one) touching the fields under that mutex. -/
+structure FnFact where
+  type : Text
+  mutex : Text
+  fn : Text
+  sections : Nat
+  writes : Bool
+  deriving Repr, DecidableEq
+
+/-- A function is one atomic step on a registry iff everything it does to it happens in ONE critical section: in
+    particular the existence test and the insert of a register function (no locking getter called before the write
+    lock is taken), and the walk of a list function. -/
+def atomicFn (f : FnFact) : Bool := decide (f.sections ≤ 1)
+
+/-- The functions that must appear in the table as single-section writers. -/
+def expectedMutators : List Text :=
+  [t!"toolManager.registerTool", t!"toolManager.unregisterTools", t!"promptManager.registerPrompt",
+   t!"resourceManager.registerResource", t!"resourceManager.registerResources", t!"resourceManager.registerTemplate",
+   t!"Server.RegisterTool", t!"Server.UnregisterTools", t!"Server.RegisterPrompt", t!"Server.RegisterResource",
+   t!"Server.RegisterResources", t!"Server.RegisterResourceTemplate", t!"Server.RegisterNotificationHandler",
+   t!"Server.UnregisterNotificationHandler"]
+
 def AllAccessesLocked (tab : List Access) : Prop := ∀ a ∈ tab, guarded a = true
 
 def site (a : Access) : Text × Text := (a.fn, a.field)
